@@ -4,6 +4,7 @@ import (
 	"context"
 	"errors"
 	"fmt"
+	"github.com/libp2p/go-libp2p/core/host"
 	"strings"
 	"sync"
 	"time"
@@ -53,6 +54,11 @@ func prunedStoreOf(total, n, tail int) (*store.Store[*vhdr.Header], []*vhdr.Head
 }
 
 func runC10(tier string, r *rng) {
+	// first of all: a server that stops answering after a number of malformed requests would make every later case of this
+	// run wait for its time-outs; the case is reported and the run ends there
+	if !c10Dataless(40) {
+		return
+	}
 	type cfg struct{ n, tail int }
 	cfgs := []cfg{{300, 50}, {80, 1}, {70, 69}, {5, 3}, {0, 0}}
 	if tier == "thorough" {
@@ -80,6 +86,8 @@ func runC10(tier string, r *rng) {
 	// a store whose reads stall (a hung disk) but honour their context: every kind of request is bounded by the server's
 	// request timeout when it comes in through the real stream handler
 	c10Stalled()
+	c10SlowStore(6)
+	c10SlowStore(1)
 	for _, m := range [][5]uint64{{30, 10, 100, 30, 3}, {30, 10, 100, 28, 5}, {30, 10, 1, 30, 2}, {30, 1, 100, 31, 4}, {30, 10, 40, 5, 64}, {30, 10, 100, 25, 64}} {
 		c10Moving(int(m[0]), int(m[1]), int(m[2]), m[3], m[4])
 	}
@@ -410,4 +418,129 @@ func c10Stalled() {
 		}
 		emit("C10 kind=stall how=stalledstore-%s sent=0 deadline=300 => end=%s bucket=%s", k, end, bucket)
 	}
+}
+
+// c10Dataless: `n` decodable requests that carry neither an origin nor a hash (only an amount), one after the other, then a
+// head request and a single-height request: the malformed ones are reset, and the server keeps answering afterwards.
+// rawBounded is peers.RawRequest that gives up waiting after the timeout even on a transport that ignores deadlines
+// (mocknet): the request goroutine is then left behind.
+func rawBounded(ctx context.Context, from, to host.Host, frame []byte, d time.Duration) ([]peers.Resp, string) {
+	type res struct {
+		r []peers.Resp
+		e string
+	}
+	ch := make(chan res, 1)
+	go func() { r, e := peers.RawRequest(ctx, from, to.ID(), frame, d); ch <- res{r, e} }()
+	select {
+	case x := <-ch:
+		return x.r, x.e
+	case <-time.After(d + 300*time.Millisecond):
+		return nil, "timeout"
+	}
+}
+
+// bounded runs a clean-up step but does not wait for it longer than 3 s (a server wedged by the change under test must not
+// wedge the harness: what the case observed has been printed by then).
+func bounded(f func()) {
+	done := make(chan struct{})
+	go func() { defer close(done); f() }()
+	select {
+	case <-done:
+	case <-time.After(3 * time.Second):
+	}
+}
+
+func c10Dataless(n int) bool {
+	ctx := context.Background()
+	mn, hosts, err := peers.NewNet(2)
+	if err != nil {
+		panic(err)
+	}
+	defer bounded(func() { mn.Close() })
+	st, _ := prunedStore(30, 11)
+	defer bounded(func() { st.Stop(ctx) }) //nolint:errcheck
+	srv, err := p2p.NewExchangeServer[*vhdr.Header](hosts[1], st,
+		p2p.WithNetworkID[p2p.ServerParameters](peers.NetworkID), p2p.WithRequestTimeout[p2p.ServerParameters](300*time.Millisecond))
+	if err != nil {
+		panic(err)
+	}
+	if err := func() error { sc, end := startCtx(); defer end(); return srv.Start(sc) }(); err != nil {
+		panic(err)
+	}
+	defer bounded(func() { srv.Stop(ctx) }) //nolint:errcheck
+	answered := 0
+	for i := 0; i < n; i++ {
+		resps, end := rawBounded(ctx, hosts[0], hosts[1], peers.Frame(&p2p_pb.HeaderRequest{Amount: 1}), 700*time.Millisecond)
+		if end != "timeout" && len(resps) == 0 {
+			answered++ // reset / closed without data: what a request without data deserves
+		}
+	}
+	show := func(resps []peers.Resp, end string) string {
+		hs := "-"
+		if len(resps) > 0 {
+			var xs []string
+			for _, r := range resps {
+				if r.Status == 1 && r.BodyOK {
+					xs = append(xs, utoa(r.H))
+				} else {
+					xs = append(xs, fmt.Sprintf("S%d", r.Status))
+				}
+			}
+			hs = strings.Join(xs, ",")
+		}
+		return end + ":" + hs
+	}
+	r1, e1 := rawBounded(ctx, hosts[0], hosts[1], peers.Frame(&p2p_pb.HeaderRequest{Data: &p2p_pb.HeaderRequest_Origin{Origin: 0}, Amount: 1}), 2*time.Second)
+	r2, e2 := rawBounded(ctx, hosts[0], hosts[1], peers.Frame(&p2p_pb.HeaderRequest{Data: &p2p_pb.HeaderRequest_Origin{Origin: 20}, Amount: 1}), 2*time.Second)
+	emit("C10 kind=dataless n=%d head=30 => refused=%d headreq=%s onereq=%s", n, answered, show(r1, e1), show(r2, e2))
+	return e1 == "eof" && e2 == "eof"
+}
+
+// slowRangeStore: GetRange / GetRangeByHeight take `d` (ignoring the context, like a store stuck in a disk read) and then
+// return the correct data.
+type slowRangeStore struct {
+	header.Store[*vhdr.Header]
+	d time.Duration
+}
+
+func (s slowRangeStore) GetRange(ctx context.Context, from, to uint64) ([]*vhdr.Header, error) {
+	time.Sleep(s.d)
+	return s.Store.GetRange(context.Background(), from, to)
+}
+
+func (s slowRangeStore) GetRangeByHeight(ctx context.Context, from *vhdr.Header, to uint64) ([]*vhdr.Header, error) {
+	time.Sleep(s.d)
+	return s.Store.GetRangeByHeight(context.Background(), from, to)
+}
+
+// c10SlowStore: the store answers a range request correctly but only after the server's request timeout has passed. The
+// client must see NOT_FOUND, a reset, or exactly the requested headers - never a cleanly closed shorter (or empty) reply.
+func c10SlowStore(amount uint64) {
+	ctx := context.Background()
+	mn, hosts, err := peers.NewNet(2)
+	if err != nil {
+		panic(err)
+	}
+	defer mn.Close()
+	st, _ := prunedStore(30, 11)
+	defer st.Stop(ctx) //nolint:errcheck
+	srv, err := p2p.NewExchangeServer[*vhdr.Header](hosts[1], slowRangeStore{st, 600 * time.Millisecond},
+		p2p.WithNetworkID[p2p.ServerParameters](peers.NetworkID), p2p.WithRequestTimeout[p2p.ServerParameters](200*time.Millisecond))
+	if err != nil {
+		panic(err)
+	}
+	if err := func() error { sc, end := startCtx(); defer end(); return srv.Start(sc) }(); err != nil {
+		panic(err)
+	}
+	defer srv.Stop(ctx) //nolint:errcheck
+	resps, end := peers.RawRequest(ctx, hosts[0], hosts[1].ID(), peers.Frame(&p2p_pb.HeaderRequest{Data: &p2p_pb.HeaderRequest_Origin{Origin: 15}, Amount: amount}), 4*time.Second)
+	okN, nf := 0, 0
+	for _, r := range resps {
+		if r.Status == 1 && r.BodyOK {
+			okN++
+		} else if r.Status == 2 {
+			nf++
+		}
+	}
+	emit("C10 kind=slowstore origin=15 amount=%d => end=%s ok=%d nf=%d n=%d", amount, end, okN, nf, len(resps))
 }
